@@ -322,6 +322,7 @@ example :
     s.handled = [0, 1] ∧ s.accepted = [0, 1] ∧ s.reason = some "T:Drained" ∧ s.startResult = some "ok" := by
   decide
 
+
 /-! ### Translator tie (rs2lean): kernel-checked equivalence between the definitions that
 `extract/rs2lean.py` regenerates from the CURRENT Rust source on every run
 (`RactorModel/Generated/*.lean`) and the hand-written model functions the theorems above are
@@ -401,6 +402,79 @@ theorem generated_drain_status_update_eq_model (enq : Except MessagingErr Unit) 
 theorem generated_status_discriminants :
     (ActorStatus.toNat .Draining, ActorStatus.toNat .Stopping, ActorStatus.toNat .Stopped)
       = (Admission.stDraining, Admission.stStopping, Admission.stStopped) := by decide
+
+/-- the bit layout `GenAdmission.enc` assumes is the one of the three source constants -/
+theorem generated_admission_constants :
+    MESSAGE_ADMISSION_CLOSED = 2 ^ 63 ∧ DRAIN_MARKER_SENT = 2 ^ 62 ∧ MESSAGE_ADMISSION_COUNT_MASK = 2 ^ 62 - 1 :=
+  GenAdmission.consts
+
+/-! the hand-written small-step model performs, at the pcs named, exactly the generated word operations -/
+section
+open Admission
+
+/-- pc `aLoad` of the model takes exactly the branch the generated `try_admit_message` takes on
+the encoded word. -/
+theorem model_admit_load_follows_generated (enq : Except MessagingErr Unit) (s : Shared) (f : Frame)
+    (rest : List Frame) (hpc : f.pc = .aLoad) (h : s.word.count + 1 < 2 ^ 62) :
+    stepThread s (f :: rest) =
+      match ActorProperties.try_admit_message enq (st s.word) with
+      | .done _ => some (finish s f .sendErr rest)
+      | .cas _ _ _ => some (s, { f with pc := .aCas s.word } :: rest) := by
+  rw [generated_try_admit_eq_model enq s.word h]
+  unfold stepThread
+  simp only [hpc]
+  cases s.word.closed <;> rfl
+
+/-- pc `aCas seen`, exchange succeeding: the word the model installs is the `new` word of the
+generated iteration (through `enc`). -/
+theorem model_admit_cas_installs_generated (enq : Except MessagingErr Unit) (s : Shared) (f : Frame)
+    (rest : List Frame) (hpc : f.pc = .aCas s.word) (hopen : s.word.closed = false)
+    (h : s.word.count + 1 < 2 ^ 62) :
+    ∃ s' st', stepThread s (f :: rest) = some (s', st') ∧
+      ActorProperties.try_admit_message enq (st s.word) = .cas (enc s.word) (enc s'.word) (some ()) := by
+  refine ⟨{ s with word := { s.word with count := s.word.count + 1 } }, { f with pc := .box } :: rest, ?_, ?_⟩
+  · unfold stepThread
+    simp only [hpc, ↓reduceIte]
+  · rw [generated_try_admit_eq_model enq s.word h]
+    simp [hopen]
+
+/-- pc `dClose`: the word the model installs is the one `close_message_admission` computes. -/
+theorem model_close_installs_generated (enq : Except MessagingErr Unit) (s : Shared) (f : Frame)
+    (rest : List Frame) (hpc : f.pc = .dClose) (h : s.word.count < 2 ^ 62) :
+    ∃ s' st', stepThread s (f :: rest) = some (s', st') ∧
+      ActorProperties.close_message_admission enq (st s.word) = st s'.word := by
+  refine ⟨{ s with word := { s.word with closed := true } }, { f with pc := .dStatus } :: rest, ?_, ?_⟩
+  · unfold stepThread
+    simp only [hpc]
+  · exact generated_close_admission_eq_model enq s.word h
+
+/-- pc `mLoad`: the marker program goes on to its exchange exactly when the generated
+`send_drain_marker` iteration does. -/
+theorem model_marker_load_follows_generated (enq : Except MessagingErr Unit) (s : Shared) (f : Frame)
+    (rest : List Frame) (ret : Option Res) (hpc : f.pc = .mLoad ret) (h : s.word.count < 2 ^ 62) :
+    stepThread s (f :: rest) =
+      match ActorProperties.send_drain_marker enq (st s.word) with
+      | .done _ => some (finish s f (mRet ret) rest)
+      | .cas _ _ _ => some (s, { f with pc := .mCas s.word ret } :: rest) := by
+  rw [generated_send_drain_marker_eq_model enq s.word h]
+  unfold stepThread
+  simp only [hpc]
+  cases markerCond s.word <;> rfl
+
+/-- pc `rel r` (ticket release): the word the model installs and its decision to enter the
+marker program are the generated `MessageAdmission::drop`'s. -/
+theorem model_release_follows_generated (enq : Except MessagingErr Unit) (s : Shared) (f : Frame)
+    (rest : List Frame) (r : Res) (hpc : f.pc = .rel r) (h : s.word.count < 2 ^ 62) (hpos : 0 < s.word.count) :
+    (MessageAdmission.drop enq (st s.word)).1 = st { s.word with count := s.word.count - 1 } ∧
+    stepThread s (f :: rest) =
+      (let s' := { s with word := { s.word with count := s.word.count - 1 } }
+       if (MessageAdmission.drop enq (st s.word)).2 then some (s', { f with pc := .mLoad (some r) } :: rest)
+       else some (finish s' f r rest)) := by
+  rw [generated_ticket_release_eq_model enq s.word h hpos]
+  refine ⟨rfl, ?_⟩
+  unfold stepThread
+  simp only [hpc]
+end
 end XlateTie
 
 end C07
@@ -430,3 +504,9 @@ end C07
 #print axioms C07.generated_ticket_release_eq_model
 #print axioms C07.generated_drain_status_update_eq_model
 #print axioms C07.generated_status_discriminants
+#print axioms C07.generated_admission_constants
+#print axioms C07.model_admit_load_follows_generated
+#print axioms C07.model_admit_cas_installs_generated
+#print axioms C07.model_close_installs_generated
+#print axioms C07.model_marker_load_follows_generated
+#print axioms C07.model_release_follows_generated
